@@ -650,6 +650,9 @@ def gen_history(rng, nops):
 
 
 # ------------------------------------------------------------------ plumbing
+SHRINK = True
+
+
 def setup(ctx):
     contracts.install_dictable()
 
